@@ -148,7 +148,7 @@ def install(rec: T.Callable[[dict], None], opts: T.Optional[dict] = None) -> Non
     # the child dies with a MemoryError (reported as an internal error) instead of eating the machine
     try:
         import resource
-        lim = int(opts.get('mem_limit', 3 << 30))
+        lim = int(opts.get('mem_limit', 4 << 30))
         resource.setrlimit(resource.RLIMIT_AS, (lim, lim))
     except Exception:
         pass
